@@ -11,7 +11,7 @@ from mpsa.match import Scope, call_dotted, is_name, is_none, kwarg, method_of, r
 from mpsa.report import Checker
 
 from . import server
-from .common import SERVER, SERVLET, WORKER, build_cfg, make_fallible
+from .common import SERVER, SERVLET, WORKER, benign_call, build_cfg, make_fallible
 
 SIMPLE = ('ProcessServlet', 'ThreadServlet')
 COMPOUND = ('SequentialServlet', 'EnsembleServlet', 'SwitchServlet')
@@ -477,7 +477,7 @@ def check_guarded_after_handshake(ck: Checker, rid: str):
 
     def any_call(node):
         a = header_expr(node)
-        return {'Exception'} if a is not None and calls_in(a) else set()
+        return {'Exception'} if a is not None and any(not benign_call(c) for c in calls_in(a)) else set()
 
     cfg = build_cfg(run_, ck.repo, any_call)
     ck.analysed_func(run_, cfg)
@@ -485,7 +485,7 @@ def check_guarded_after_handshake(ck: Checker, rid: str):
     ck.need(puts, f'{run_.key}: the handshake put of a successful initialisation was not found')
     hs = puts[-1]
     after = [cfg.nodes[i] for i in reachable(cfg, [e.dst for e in cfg.normal_succ(hs.id)]) if i not in (cfg.exit_return, cfg.exit_raise)]
-    calls_after = [n for n in after if header_expr(n) is not None and calls_in(header_expr(n))]
+    calls_after = [n for n in after if header_expr(n) is not None and any(not benign_call(c) for c in calls_in(header_expr(n)))]
     ok = len(calls_after) == 1 and any(method_of(c)[1] == 'start' for c in calls_in(header_expr(calls_after[0])))
     ck.ob(rid, run_, hs.ast, ok, 'after the handshake Worker.run only calls start()' if ok else f'after the handshake Worker.run executes {[norm_text(n.ast)[:40] for n in calls_after]}: a failure there is not reported to the servlet that is waiting in start()')
     # (b) Worker.start: every call outside the handlers is inside the try whose handlers broadcast the sentinel
@@ -500,7 +500,7 @@ def check_guarded_after_handshake(ck: Checker, rid: str):
     probs = []
     guarded = {n.id for n in cfg.nodes if any(e.kind == 'exc' and cfg.nodes[e.dst].kind == 'except' for e in cfg.succ[n.id])}
     for n in cfg.nodes:
-        if n.id in in_handlers or n.pending is not None or header_expr(n) is None or not calls_in(header_expr(n)):
+        if n.id in in_handlers or n.pending is not None or header_expr(n) is None or not any(not benign_call(c) for c in calls_in(header_expr(n))):
             continue
         if n.id not in reachable(cfg, [cfg.entry], edge_ok=lambda e: not e.is_exc):
             continue
